@@ -65,7 +65,8 @@ func addGuarded(s *Stack, src domains.BlockHeaderSource) (out string) {
 	return AddOutcome(s, src)
 }
 
-// C05 case: history line with x=<mode>:<i>:<k>   mode = kill | ckill | sfault | fault | cont | ikill
+// C05 case: history line with x=<mode>:<i>:<k>   mode = kill | ckill | cfault | sfault | fault | cont | ikill
+//   cfault: the k-th COMMIT since arming fails once (commit hook), the process continues (same model as fault)
 //   ikill: killed during the very first start, after the schema migrations and before genesis is inserted (i = k = 0)
 //   sfault: a SQLite trigger aborts statement kind k (0 demote / 1 promote / 2 insert) while header i is added
 //   kill/fault/cont count repository write calls; ckill counts committed SQLite transactions (commit hook)
@@ -87,7 +88,7 @@ func runC05(c *Ctx) error {
 	// commits after arming succeed, every later COMMIT is turned into a ROLLBACK by a SQLite commit hook.
 	var hookArmed bool
 	var commitBudget, commitsSeen int
-	var hookHit bool
+	var hookHit, hookOnce bool
 	hook := func() int {
 		if !hookArmed {
 			return 0
@@ -95,6 +96,9 @@ func runC05(c *Ctx) error {
 		if commitsSeen < commitBudget {
 			commitsSeen++
 			return 0
+		}
+		if hookOnce && hookHit {
+			return 0 // "cfault": exactly one COMMIT fails, the process lives on
 		}
 		hookHit = true
 		return 1
@@ -211,6 +215,14 @@ func runC05(c *Ctx) error {
 			if os.Getenv("VERIF_DEBUG") != "" {
 				fmt.Fprintf(os.Stderr, "sfault k=%d outcome=%s\n", k, o)
 			}
+			outs = []string{o}
+		} else if mode == "cfault" {
+			// ONE COMMIT fails (SQLite turns it into a rollback and reports the error); the process goes on: Add must
+			// report the failure, exactly as when the repository call itself fails
+			hookArmed, commitBudget, commitsSeen, hookHit, hookOnce = true, k, 0, false, true
+			o := addGuarded(s, m.Src[i])
+			hookArmed, hookOnce = false, false
+			hit = hookHit
 			outs = []string{o}
 		} else if mode == "ckill" {
 			hookArmed, commitBudget, commitsSeen, hookHit = true, k, 0, false
@@ -368,7 +380,7 @@ func runC05(c *Ctx) error {
 			if _, err := doCase(h, p[0], i, k, "corpus"); err != nil {
 				return err
 			}
-		} else if err := all(h, "corpus", []string{"kill", "ckill", "sfault", "fault", "cont"}, &big); err != nil {
+		} else if err := all(h, "corpus", []string{"kill", "ckill", "cfault", "sfault", "fault", "cont"}, &big); err != nil {
 			return err
 		}
 	}
@@ -394,7 +406,7 @@ func runC05(c *Ctx) error {
 	budget = c.Pick(1600, 30000)
 	for n := 0; budget > 0 && n < c.Pick(400, 8000); n++ {
 		o := GenOpts{N: 3 + c.Rng.Intn(c.Pick(8, 14)), PUnknown: 0.05, PLate: 0.08, PDup: 0.05, PForbidden: 0.05, Positive: true, Deep: true}
-		if err := all(GenHistory(c.Rng, o), "random-deep", []string{"kill", "ckill", "sfault", "fault", "cont"}, &budget); err != nil {
+		if err := all(GenHistory(c.Rng, o), "random-deep", []string{"kill", "ckill", "cfault", "sfault", "fault", "cont"}, &budget); err != nil {
 			return err
 		}
 	}
